@@ -155,6 +155,8 @@ def main(argv):
         c.broken.append("build of the repo working tree failed: " + blog[-800:])
         return c.finish(rule="build failed")
     c.proofs()
+    if not (c.tier == "quick"):
+        coqchk(c)
     drv, dlog = build_driver("C07")
     impl = hx_bin("hx_wrap")
     tool = repo_bin("foldfilter")
@@ -231,6 +233,25 @@ def main(argv):
                 c.violation("valid-line-rejected: wrap_lines(%r, w=%d) answered %s" % (line, width, o),
                             {"op": "wrap_lines", "line_hex": hx(line), "width": width, "keep": keep, "delims": delims, "impl": o, "how": how})
                 continue
+            # which branches of wrap_lines (= case splits of the proofs) this case went through
+            ps_, ds_ = r
+            feats = ["pieces=%s" % (len(ps_) if len(ps_) < 3 else "3+")]
+            if any(len(p) > width for p in ps_):
+                feats.append("single-code-point-wider-than-width")
+            if any(d for d in ds_):
+                feats.append("withheld-run")
+            if keep and any(p and cps(p) and cps(p)[-1] in delims for p in ps_[:-1]):
+                feats.append("kept-delimiters-at-piece-end(peek-extension)")
+            for a, b in zip(ps_, ps_[1:]):
+                cb = cps(b)
+                if a and cb and len(a) < width and len(chr(cb[0]).encode("utf-8")) > 1 and len(a) + len(chr(cb[0]).encode("utf-8")) > width:
+                    feats.append("cut-in-front-of-crossing-multibyte")
+                    break
+            if any(a and cps(a) and cps(a)[-1] not in delims and cps(b) and cps(b)[0] not in delims for a, b in zip(ps_, ps_[1:])):
+                feats.append("hard-cut-inside-word")
+            for f in feats:
+                key = "branch/" + f
+                c.cov["distribution"][key] = c.cov["distribution"].get(key, 0) + 1
             for kind, text in oracle(line, width, keep, delims, r[0], r[1]):
                 c.violation("%s: wrap_lines(%r, width=%d, keep=%s, delims=%r): %s" % (kind, line, width, keep, delims, text),
                             {"op": "wrap_lines", "kind": kind, "line_hex": hx(line), "line": line.decode("utf-8"), "width": width, "keep": keep,
